@@ -196,9 +196,12 @@ _LOG = _logging.getLogger('c11scen')
 
 
 class LayerMaker:
+  """A class with a classmethod constructor; every instantiation is recorded (pool.CALL_LOG)."""
 
   def __init__(self, size=0):
+    from harness import pool  # pylint: disable=g-import-not-at-top
     self.size = size
+    self.inst = pool.Inst(77, {'s1': size})
 
   @classmethod
   def of_size(cls, size):
